@@ -157,4 +157,21 @@ NumMustReject(items, vals) ==
       \/ (HasTok(items, td) /\ HasTok(items, tm) /\ HasTok(items, tY) /\ m \in 1..12 /\ dd > C!DaysInMonth(y, m)
              /\ ~(m = 2 /\ dd \in {30, 31} /\ C!IsLeap(y)))          \* known finding F11 is judged where it is reported
       \/ hh > 24 \/ mi > 59 \/ ss > 60 \/ j > 366
+(* ... followed by the offset token: the numeric items, then %z as the last item.  The sentence ends in        *)
+(* [+-]HH:MM; the part before it is a sentence of the numeric items (the last of which may be followed by a    *)
+(* blank).  <<matched, values, offset hours, offset minutes>>                                                  *)
+NumFormatZ(items) ==
+  /\ Len(items) >= 2 /\ items[Len(items)].tok = tz /\ ~items[Len(items)].opt /\ items[Len(items)].s1 = -1
+  /\ LET k == Len(items) - 1 IN
+       /\ items[k].s1 \in {-1, cSpace} /\ items[k].s2 = -1
+       /\ NumFormat([j \in 1..k |-> IF j = k THEN [items[k] EXCEPT !.s1 = -1] ELSE items[j]])
+MatchNumZ(items, s0) ==
+  LET s == Trim(s0)  L == Len(s)  k == Len(items) - 1
+      w == IF items[k].s1 = -1 THEN 0 ELSE 1
+      nm == [j \in 1..k |-> IF j = k THEN [items[k] EXCEPT !.s1 = -1] ELSE items[j]]
+  IN  IF L < 7 + w \/ At(s, L - 5) \notin {cPlus, cDash} \/ ~Two(s, L - 4) \/ At(s, L - 2) # cColon \/ ~Two(s, L - 1)
+         \/ (w = 1 /\ At(s, L - 6) # cSpace)
+      THEN <<FALSE, <<>>, 0, 0>>
+      ELSE LET r == MatchNumFrom(nm, SubSeq(s, 1, L - 6 - w), 1, 1) IN
+             IF r[1] THEN <<TRUE, r[2], NatAt(s, L - 4, 2), NatAt(s, L - 1, 2)>> ELSE <<FALSE, <<>>, 0, 0>>
 =============================================================================
